@@ -24,30 +24,35 @@ def status():
     return "\n".join(rows)
 
 def matrix():
-    p = V / "seeded" / "matrix.json"
-    if not p.exists():
-        return "(matrix not built)"
-    mat = json.loads(p.read_text())
-    rows = ["| seeded change | file(s) changed | reported by (VIOLATION, quick tier) | not applicable |", "|---|---|---|---|"]
-    missed = []
-    for sid in sorted(mat, key=lambda s: (s[:3], 0 if "-r" not in s else int(s.split("-r")[1][0]), s)):
-        r = mat[sid]
-        if "_error" in r and not any(k.startswith("C") for k in r):
-            rows.append(f"| {sid} | | | {r['_error']} |")
-            continue
-        diff = (V / "seeded" / sid / "patch.diff").read_text()
+    """one row per seeded change: the checks that report it (VIOLATION with a replay, quick tier) according to the last run
+    of tools/seeded.py / tools/own_matrix.py (seeded/<id>/last_run.json: the own property's check and re-classified ones) and
+    to the full cross matrix of round 1 (seeded/matrix.json: every check against every change)"""
+    mp = V / "seeded" / "matrix.json"
+    mat = json.loads(mp.read_text()) if mp.exists() else {}
+    ids = sorted((p.name for p in (V / "seeded").iterdir() if (p / "patch.diff").exists()),
+                 key=lambda s: (s[:3], 0 if "-r" not in s else int(s.split("-r")[1].split("m")[0]), s))
+    rows = ["| seeded change | round | file(s) changed | reported by (VIOLATION with replay, quick tier) | note |", "|---|---|---|---|---|"]
+    missed, neutral = [], []
+    for sid in ids:
+        d = V / "seeded" / sid
+        meta = json.loads((d / "meta.json").read_text()) if (d / "meta.json").exists() else {}
+        lr = json.loads((d / "last_run.json").read_text()) if (d / "last_run.json").exists() else {}
+        diff = (d / "patch.diff").read_text()
         files = sorted(set(re.findall(r"^\+\+\+ b/src/krrood/(\S+)", diff, flags=re.M)))
-        caught = [c for c in sorted(r) if c.startswith("C") and r[c].get("caught")]
-        broken = [c for c in sorted(r) if c.startswith("C") and r[c].get("exit") == 2]
-        meta = json.loads((V / "seeded" / sid / "meta.json").read_text())
+        caught = {c for c, r in lr.get("checks", {}).items() if r.get("violation_lines")}
+        caught |= {c for c, r in mat.get(sid, {}).items() if c.startswith("C") and r.get("caught")} if not meta.get("rebased") else set()
+        note = []
         if meta.get("neutralised"):
-            rows.append(f"| {sid} | {', '.join(files)} | {', '.join(caught) or '–'} | neutralised by a later repair (its own demonstration passes with the patch): not a property-breaking change any more |")
-            continue
-        if not caught:
+            neutral.append(sid); note.append("neutralised by a later repair (its own demonstration passes with the patch)")
+        elif not caught:
             missed.append(sid)
-        rows.append(f"| {sid} | {', '.join(files)} | {', '.join(caught) or '**none**'} | {('check broken (exit 2): ' + ', '.join(broken)) if broken else ''} |")
-    head = f"{len(mat)} seeded changes x {len([c for c in next(iter(mat.values())) if c.startswith('C')])} checks; " \
-           f"reported by at least one check: {len(mat) - len(missed)}; by none: {missed or 'none'}\n\n"
+        if meta.get("rebased"):
+            note.append("re-based")
+        if meta.get("reclassified"):
+            note.append("re-classified")
+        rows.append(f"| {sid} | {meta.get('round', 1)} | {', '.join(files)} | {', '.join(sorted(caught)) or ('–' if meta.get('neutralised') else '**none**')} | {'; '.join(note)} |")
+    head = (f"{len(ids)} seeded changes; reported by at least one check: {len(ids) - len(missed) - len(neutral)}; neutralised by repairs: "
+            f"{len(neutral)}; reported by none: {missed or 'none'}\n\n")
     return head + "\n".join(rows)
 
 def inject(text, tag, body):
